@@ -170,6 +170,8 @@ fn scratch_dir(prop: &str) -> PathBuf {
 }
 
 pub struct Batch {
+    /// scale scenarios run by this check (plan, outcome text)
+    pub scale: Vec<serde_json::Value>,
     pub merged: BatchStats,
     pub found: Vec<Found>,
     pub samples: Vec<serde_json::Value>,
@@ -265,7 +267,7 @@ pub fn run_batch(prop: &str, seed: u64, n: u64, workers: u64) -> Batch {
     }
     let _ = std::fs::remove_dir_all(&dir);
     found.sort_by_key(|f| (f.idx, f.sub));
-    Batch { merged, found, samples, crashes, done }
+    Batch { scale: vec![], merged, found, samples, crashes, done }
 }
 
 // ------------------------------------------------------------------------------------------------
@@ -284,7 +286,33 @@ fn ops_of(e: &mut Event) -> Option<&mut Vec<Op>> {
     }
 }
 
-/// Does executing `t` in a process of its own kill that process?
+/// How long a single trace may run in a process of its own before it counts as hung (an ordinary
+/// run takes milliseconds).
+fn one_run_limit() -> Duration {
+    Duration::from_secs(std::env::var("VERIF_RUN_HANG_S").ok().and_then(|s| s.parse().ok()).unwrap_or(20))
+}
+
+/// Wait for a child for at most `limit`; a child still running then is killed (None).
+fn status_within(cmd: &mut Command, limit: Duration) -> Option<std::process::ExitStatus> {
+    let mut child = cmd.spawn().ok()?;
+    let t0 = Instant::now();
+    loop {
+        match child.try_wait() {
+            Ok(Some(s)) => return Some(s),
+            Ok(None) => {
+                if t0.elapsed() > limit {
+                    let _ = child.kill();
+                    let _ = child.wait();
+                    return None;
+                }
+                std::thread::sleep(Duration::from_millis(5));
+            }
+            Err(_) => return None,
+        }
+    }
+}
+
+/// Does executing `t` in a process of its own kill that process (or never end)?
 fn crashes(t: &Trace) -> bool {
     let exe = std::env::current_exe().unwrap();
     let tmp = out_dir().join("replays").join(format!(".cand-{}.json", std::process::id()));
@@ -292,11 +320,11 @@ fn crashes(t: &Trace) -> bool {
     if std::fs::write(&tmp, serde_json::to_vec(&rf).unwrap()).is_err() {
         return false;
     }
-    let st = Command::new(&exe).args(["replay-inner", tmp.to_str().unwrap()]).stdout(Stdio::null()).stderr(Stdio::null()).status();
+    let st = status_within(Command::new(&exe).args(["replay-inner", tmp.to_str().unwrap()]).stdout(Stdio::null()).stderr(Stdio::null()), one_run_limit() / 3);
     let _ = std::fs::remove_file(&tmp);
     match st {
-        Ok(s) => s.code().is_none() || s.code() == Some(134),
-        Err(_) => false,
+        Some(s) => s.code().is_none() || s.code() == Some(134),
+        None => true, // hung
     }
 }
 
@@ -395,7 +423,7 @@ pub fn minimize_cmd(args: &[String]) -> i32 {
     // the oracle id as reported may be an alias or a borrowed id ("C11.C01.x"): minimise on the
     // id the executor itself raises
     let base_oracle = if rf.oracle == rf.violation.oracle || rf.violation.aliases.contains(&rf.oracle) { rf.oracle.clone() } else { rf.violation.oracle.clone() };
-    let t = minimise(&rf.trace, &base_oracle, Duration::from_secs(30));
+    let t = minimise(&rf.trace, &base_oracle, Duration::from_secs(if rf.crash { 150 } else { 30 }));
     if rf.crash {
         // never execute a crashing trace in this process
         let out = ReplayFile { trace: t, minimised: true, ..rf };
@@ -412,22 +440,63 @@ pub fn minimize_cmd(args: &[String]) -> i32 {
 /// `sim replay <file>`: execute the recorded trace with no PRNG; exit 1 and print the violation
 /// if it reproduces, exit 0 if the run is clean.
 pub fn replay_cmd(args: &[String]) -> i32 {
+    // a scale scenario (scale.rs) has a plan instead of a trace
+    if let Some(v) = std::fs::read(&args[0]).ok().and_then(|b| serde_json::from_slice::<serde_json::Value>(&b).ok()) {
+        if let Some(plan) = v.get("scale").and_then(|p| serde_json::from_value::<crate::scale::Plan>(p.clone()).ok()) {
+            let prop = v["property"].as_str().unwrap_or("?").to_string();
+            return match crate::scale::run_plan(&plan) {
+                crate::scale::Outcome::Held => {
+                    println!("REPLAY property={prop} scale scenario {} (n = {}, stack {} KiB): clean", plan.variant, plan.n, plan.stack_kib);
+                    0
+                }
+                crate::scale::Outcome::Violated(m) => {
+                    println!("REPLAY property={prop} scale scenario {} (n = {}, stack {} KiB): {m}", plan.variant, plan.n, plan.stack_kib);
+                    println!("VIOLATION property={prop} replay={}", args[0]);
+                    1
+                }
+            };
+        }
+    }
     // the trace is executed in a child process, so that a crash is an outcome like any other
     let exe = std::env::current_exe().unwrap();
-    let st = Command::new(&exe).arg("replay-inner").args(args).status();
+    let prop = || std::fs::read(&args[0]).ok().and_then(|b| serde_json::from_slice::<ReplayFile>(&b).ok()).map(|r| r.property).unwrap_or_default();
+    let mut child = match Command::new(&exe).arg("replay-inner").args(args).spawn() {
+        Ok(c) => c,
+        Err(e) => {
+            eprintln!("harness error: cannot start the replay process: {e}");
+            return 2;
+        }
+    };
+    // a trace that does not end is an outcome too (a call into the crate that never returns)
+    let limit = one_run_limit() * 3;
+    let t0 = Instant::now();
+    let st = loop {
+        match child.try_wait() {
+            Ok(Some(s)) => break Some(s),
+            Ok(None) if t0.elapsed() > limit => {
+                let _ = child.kill();
+                let _ = child.wait();
+                break None;
+            }
+            Ok(None) => std::thread::sleep(Duration::from_millis(5)),
+            Err(_) => break None,
+        }
+    };
     match st {
-        Ok(s) if s.code() == Some(0) => 0,
-        Ok(s) if s.code() == Some(1) => 1,
-        Ok(s) if s.code() == Some(2) => 2,
-        Ok(s) => {
-            let prop = std::fs::read(&args[0]).ok().and_then(|b| serde_json::from_slice::<ReplayFile>(&b).ok()).map(|r| r.property).unwrap_or_default();
+        Some(s) if s.code() == Some(0) => 0,
+        Some(s) if s.code() == Some(1) => 1,
+        Some(s) if s.code() == Some(2) => 2,
+        Some(s) => {
+            let prop = prop();
             println!("REPLAY property={prop} the process executing the trace died ({s})");
             println!("VIOLATION property={prop} replay={}", args[0]);
             1
         }
-        Err(e) => {
-            eprintln!("harness error: cannot start the replay process: {e}");
-            2
+        None => {
+            let prop = prop();
+            println!("REPLAY property={prop} the process executing the trace did not end within {}s: a call into the crate never returns", limit.as_secs());
+            println!("VIOLATION property={prop} replay={}", args[0]);
+            1
         }
     }
 }
@@ -529,16 +598,37 @@ pub fn check_cmd(args: &[String]) -> i32 {
     let t0 = Instant::now();
     let n = budget(prop, &tier);
     println!("check {prop} tier={tier} VERIF_SEED={seed} runs={n} workers={workers} profile={}", profile_name());
-    let batch = run_batch(prop, seed, n, workers);
+    let mut batch = run_batch(prop, seed, n, workers);
     let known = load_known();
     let mut violations = 0u64;
     let mut known_lines: Vec<String> = vec![];
     let mut reported: Vec<serde_json::Value> = vec![];
 
+    // scale scenarios under a small stack (fault kind: stack exhaustion), checked profile only
+    if cfg!(debug_assertions) && !cfg!(miri) {
+        for plan in crate::scale::plans(prop, seed, tier == "thorough") {
+            let t1 = Instant::now();
+            let out = crate::scale::run_plan(&plan);
+            let held = matches!(out, crate::scale::Outcome::Held);
+            batch.scale.push(serde_json::json!({"variant": plan.variant, "n": plan.n, "stack_kib": plan.stack_kib, "held": held, "wall_s": t1.elapsed().as_secs_f64()}));
+            if let crate::scale::Outcome::Violated(msg) = out {
+                violations += 1;
+                let dir = out_dir().join("replays");
+                let _ = std::fs::create_dir_all(&dir);
+                let path = dir.join(format!("{prop}-scale-{}-s{seed}.json", plan.variant));
+                let oracle = format!("{prop}.scale-{}", plan.variant);
+                let _ = std::fs::write(&path, serde_json::to_vec_pretty(&serde_json::json!({"version": 1, "property": prop, "oracle": oracle, "seed": seed, "scale": plan, "violation": msg})).unwrap());
+                println!("VIOLATION property={prop} replay={} oracle={oracle}", path.display());
+                println!("  {} (n = {}, stack {} KiB): {msg}", plan.variant, plan.n, plan.stack_kib);
+                reported.push(serde_json::json!({"oracle": oracle, "detail": msg, "replay": path.display().to_string()}));
+            }
+        }
+    }
+
     // worker crashes and hangs
     let mut harness_error = None;
     for (idx, msg) in &batch.crashes {
-        if props::owns(prop, "crash") || msg.contains("watchdog") && matches!(prop, "C08" | "C09") {
+        if props::owns(prop, "crash") || msg.contains("watchdog") && matches!(prop, "C08" | "C09" | "C11") {
             violations += 1;
             if reported.iter().any(|r: &serde_json::Value| r["oracle"] == format!("{prop}.crash")) {
                 continue; // one crash replay per batch is enough
@@ -549,7 +639,7 @@ pub fn check_cmd(args: &[String]) -> i32 {
             // and op before it is executed
             let stream = dir.join(format!(".stream-{prop}-{idx}.txt"));
             let exe = std::env::current_exe().unwrap();
-            let _ = Command::new(&exe).args(["one", prop, &seed.to_string(), &idx.to_string(), "--stream", stream.to_str().unwrap()]).stdout(Stdio::null()).stderr(Stdio::null()).status();
+            let _ = status_within(Command::new(&exe).args(["one", prop, &seed.to_string(), &idx.to_string(), "--stream", stream.to_str().unwrap()]).stdout(Stdio::null()).stderr(Stdio::null()), one_run_limit());
             let trace = std::fs::read_to_string(&stream).ok().and_then(|t| run::trace_from_stream(&t));
             let _ = std::fs::remove_file(&stream);
             let path = match trace {
@@ -813,6 +903,7 @@ pub fn write_evidence(prop: &str, tier: &str, seed: u64, b: &Batch, violations: 
                 "collection_calls": m.totals.get("collect_calls").copied().unwrap_or(0),
             },
             "faults_fired": faults,
+            "scale_scenarios_small_stack": b.scale,
             "states": m.states.len(),
             "transitions": m.transitions.len(),
             "states_measure": "hash of the collector state read through the cfg(gc_arena_verif) snapshot hook: phase, root flag, and per object in list order (colour, live, needs_trace, before/after sweep cursor, shadow-reachable, kind), queue lengths; transitions are (state, event label, state') triples",
